@@ -95,6 +95,7 @@ type c05cfg struct {
 	drop        bool // connection lost right after the last element
 	gate        bool // the handler entered first waits for a second one to be entered (client only)
 	eofWithData bool // with drop: the read that returns the last bytes also reports the end of the connection
+	noResume    bool // stream management enabled by the server without resumption (<enabled/> with an id, no resume attribute)
 	idleFirst   bool // keepalive every 7 s; the session is left idle for 13 s (one keepalive and 6 s more) before anything arrives
 }
 
@@ -130,7 +131,11 @@ func c05body(cfg c05cfg, first []int, maxLen int) func() {
 			if cfg.idleFirst {
 				ka = 7
 			}
-			s := newSess(sessOpts{sm: cfg.sm, smResume: cfg.sm, keepalive: ka, noCatchAll: cfg.gate})
+			so := sessOpts{sm: cfg.sm, smResume: cfg.sm, keepalive: ka, noCatchAll: cfg.gate}
+			if cfg.noResume {
+				so.enableAns = "enabled-id-no-resume"
+			}
+			s := newSess(so)
 			if s.cl == nil {
 				return
 			}
@@ -345,6 +350,11 @@ func TestVerifC05(t *testing.T) {
 				}
 			}
 		}
+	}
+	for a := range c05alphabet {
+		cfg := c05cfg{sm: true, seg: "whole", size: sizes[0], noResume: true}
+		scs = append(scs, hx.Scenario{Name: fmt.Sprintf("sm-without-resumption/first=%s", c05alphabet[a].name),
+			Opt: vrt.Options{Bound: bound, Horizon: 100000}, Body: c05body(cfg, []int{a}, maxLen), Verdict: c05verdict(cfg)})
 	}
 	for a := range c05alphabet {
 		cfg := c05cfg{sm: true, seg: "whole", size: 1, idleFirst: true}
